@@ -169,7 +169,7 @@ fn plan(p: &mut Plan<'_>) {
             p.assumptions = vec!["RFC 9221: max_datagram_frame_size bounds the whole frame (type, length, payload); the smallest encoding of a payload of n bytes is n+1", "an assembler offering at least payload+9 bytes of room must get the head datagram (any encoding fits); between payload+1 and payload+8 either answer is accepted", "network reordering is modelled as delay: the reader must return datagrams in arrival order"];
         }
         "C20" => {
-            p.part(netsim::NetSim { mode: netsim::Mode::C20 }, 250, 15_000, "each seeded whole-stack case (handshake, transfer, loss, close at a drawn time, idle expiry, path loss) is executed six times under exporter configurations no-op / discard-all / capturing / capturing+raw / filtered / shipped LegacySeqLogger into memory; wire and application traces must be identical; every captured event must serialise with the mandatory fields, parse back equal and convert to the legacy form without panicking; non-trivial = faults fired and progress; distinct = trace hash");
+            p.part(netsim::NetSim { mode: netsim::Mode::C20 }, 250, 15_000, "each seeded whole-stack case (handshake, transfer, loss, close at a drawn time, idle expiry, path loss) is executed seven times under exporter configurations no-op / discard-all / capturing / capturing+raw / filtered / shipped LegacySeqLogger into memory / the same logger into a sink that fails after a seed-drawn number of bytes (short write, then errors); wire and application traces must be identical; every captured event must serialise with the mandatory fields, parse back equal and convert to the legacy form without panicking; non-trivial = faults fired and progress; distinct = trace hash");
             p.assumptions = vec!["event time stamps are wall-clock and excluded from comparisons", "for the legacy logger (own writer task) only the application trace is compared", "event-builder field-value enumeration is not claimed (input enumeration)"];
         }
         "C18" => {
